@@ -82,6 +82,22 @@ CYCLE_CORPUS = [
 ]
 
 
+# inputs on which minimisation once grew without end (each found on the
+# pinned tree and repaired; DESIGN.md 12).  Unbounded growth has no finite
+# witness, so for these entries the check uses a regression bound: the
+# repaired tree needs about 100 adoptions and never exceeds 1.15 x the
+# original size; 200 adoptions *and* an adopted input larger than 1.6 x the
+# original are reported (the run is stopped after 220 adoptions).
+GROWTH_CORPUS = [
+    {
+        'name': 'no-core-hierarchical-bv-fresh-variables',
+        'opts': ['--strategy', 'hierarchical', '--no-core'],
+        'contains': ['bvadd', 'let', '>'],
+        'input': '(set-info :status unsat)\n(set-logic ALL)\n(declare-const a Int)\n(declare-const b Real)\n(declare-fun c () Int)\n(declare-fun f (Int Int) Int)\n(declare-fun bv1 () (_ BitVec 8))\n(declare-const bv2 (_ BitVec 8))\n(define-fun g ((x Int) (y Int)) Int (+ x y 1))\n(define-fun h () Int 5)\n(define-fun rec ((x Int)) Int (rec x))\n(declare-datatype Color ((red) (green) (mk (val Int) (nxt Color))))\n(declare-datatypes ((L 0) (P 0)) (((nil) (cons (hd Int) (tl L))) ((pair (fst Int) (snd L)))))\n(declare-const col Color)\n(declare-const lst L)\n(assert (> (g a c) (f a (+ a 2 3))))\n(assert (let ((z (+ a 1)) (w (bvadd bv1 bv2))) (and (> z 0) (= w ((_ zero_extend 0) bv1)))))\n(assert (forall ((q Int) (r Real)) (exists ((s Int)) (=> (> q s) (> (to_real q) r)))))\n(assert (= ((_ extract 3 0) bv1) ((_ extract 7 4) (bvmul bv1 bv2 #x03))))\n(assert (or (= col red) (= (val col) h) (= lst (cons 1 nil))))\n(assert (and (> b 2.5) (< (* 2 a) (- 7)) (distinct a c 3)))\n(assert (= (ite (> a 0) (bvnot bv1) (bvneg bv2)) #b00001111))\n(check-sat)\n(get-model)\n(exit)\n',
+    },
+]
+
+
 class C03(props.Prop):
     id = 'C03'
     title = 'Minimisation always terminates: no mutation cycles, no-ops, hanging mutators'
@@ -157,6 +173,22 @@ class C03(props.Prop):
         spec['jump_budget'] = JUMP_BUDGET
         spec['sched']['step_cap'] = 1500000
         spec['sched']['wall_cap'] = 12.0
+        if rng.random() < 0.015:
+            g = rng.choice(GROWTH_CORPUS)
+            spec = workload.base_spec(rng, jobs=(1, 2, 4), out_modes=('', ),
+                                      strategies=('hierarchical', ),
+                                      text=g['input'])
+            spec['opts'] = g['opts'] + ['-j', str(spec['jobs'])]
+            spec['cmd_args'] = []
+            spec['model']['rules'] = [[{'k': 'contains',
+                                        'toks': g['contains']}, 'bug']]
+            spec['growth_entry'] = g['name']
+            # deterministic end of a growing run (the repaired tree stops
+            # after about 100 adoptions by itself)
+            spec['stop_after_writes'] = 220
+            spec['jump_budget'] = JUMP_BUDGET
+            spec['sched']['step_cap'] = 10**7
+            spec['sched']['wall_cap'] = 40.0
         return {'prop': 'C03', 'runs': [spec]}
 
     def find_revisit(self, res, v, strat, writes):
@@ -323,6 +355,23 @@ class C03(props.Prop):
                     f'walking a cycle of simplifications instead of stopping '
                     f'after a round without net reduction',
                     times=worst)
+        # (b') growth regression on the corpus of inputs that once grew forever
+        if spec.get('growth_entry') and len(rec.writes) >= 200:
+            orig = len(' '.join(reftok.tokenize(spec['input'])))
+            big = max(len(rec.text(w['dig'])) for w in rec.writes)
+            v.probes['growth_entry_runs'] += 1
+            if big > 1.6 * orig:
+                v.violate(
+                    'growth', f'C03:growth-regression:{spec["growth_entry"]}',
+                    f'{len(rec.writes)} simplifications adopted and the '
+                    f'input has grown from {orig} to {big} characters (the '
+                    f'run was cut: {res.outcome}); this input once grew '
+                    f'without end, the repaired tree stops after about 100 '
+                    f'adoptions', adopted=len(rec.writes), size=big,
+                    original=orig)
+                v.aborted = None
+        elif spec.get('growth_entry'):
+            v.probes['growth_entry_runs'] += 1
         # (b) bounded liveness
         bound = 20 * len(spec['input']) + 1000
         if len(rec.writes) > bound:
